@@ -50,13 +50,14 @@ void burst_ops(World& W, int point)
     }
     if (is_prop("C20"))
     {
-      switch (c.weighted({5, 3, 2, 1, 1}))
+      switch (c.weighted({5, 3, 2, 1, 1, kBounded ? 0u : 3u}))
       {
       case 0: op_log(W, pick_worker(W), true, point); break;
       case 1: op_exit_thread(W, pick_worker(W)); break;
       case 2: { int nw = op_start_thread(W); if (nw >= 0) op_log(W, nw, true, point); break; }
       case 3: op_shrink(W, pick_worker(W)); break;
-      default: op_thread_batch(W); break;
+      case 4: op_thread_batch(W); break;
+      default: op_shrink_chain_then_exit(W, point); break;
       }
       continue;
     }
